@@ -8,6 +8,9 @@ pub mod lifted {
     // add_edns (NSID / server cookie = HMAC) only fills the reply's OPT options; abstracted to a no-op
     pub fn add_edns_shim(_edns: &mut dnspkt::EdnsData, _msg: &DnsMessage) {}
     include!(concat!(env!("VERIF_GEN_DIR"), "/create_in_reply.rs"));
+    // C04: which size limit each transport applies when it turns the reply into octets
+    include!(concat!(env!("VERIF_GEN_DIR"), "/udp_reply_bytes.rs"));
+    include!(concat!(env!("VERIF_GEN_DIR"), "/tcp_reply_bytes.rs"));
 }
 
 #[cfg(kani)]
